@@ -94,10 +94,10 @@ def _worker_entry(args):
 
 def _jsonable(x):
     try:
-        json.dumps(x)
-        return x
+        t = json.dumps(x)
+        return x if len(t) < 2000 else t[:2000] + "...(truncated)"
     except Exception:
-        return repr(x)
+        return repr(x)[:2000]
 
 
 class Run:
